@@ -1,4 +1,5 @@
 CONSTANTS Conns <- C2
+  Dpid <- DpidId
   I = 2
   TO = 1
   Late = 1
